@@ -1,5 +1,6 @@
 """C05 - PlainDateTime arithmetic, difference and rounding compose date and exact time (Engine M: the ISO kernels)."""
 from mirsmt.terms import *
+from mirsmt.terms import add as add_
 from mirsmt import symex
 from . import refs as R
 from .c01 import cyc_day, D_LO, D_HI
@@ -123,12 +124,90 @@ def datetime_round(io, unit, inc):
     io.obligations("C05.dt_round")
 
 
+def datetime_add(io, overflow):
+    """AddDateTime (IsoDateTime::add_date_duration, behind PlainDateTime::add/subtract): the time part is added with
+    nanosecond-exact carry into whole days, and the date part is AddISODate(receiver date, years, months, weeks,
+    days + carry) - exactly those arguments (compositional; AddISODate itself is decided in C04)"""
+    from .c04 import date_duration
+    y, m, d = any_date(io)
+    t = any_time(io)
+    yrs = io.flt("years", -1000, 1000)
+    mos = io.flt("months", -12000, 12000)
+    wks = io.flt("weeks", -50000, 50000)
+    dys = io.flt("days", -1_000_000, 1_000_000)
+    norm = io.int("norm", "i128", -100 * R.NS_DAY, 100 * R.NS_DAY)
+    # the date and time parts come from one valid Duration: all fields share a sign
+    sv = [yrs.t, mos.t, wks.t, dys.t, norm.t]
+    io.assume(or_(and_(*[ge(v, 0) for v in sv]), and_(*[le(v, 0) for v in sv])))
+    ov = symex.Enum(overflow, {overflow: []}, "ArithmeticOverflow")
+    ov_opt = symex.Enum(1, {0: [], 1: [ov]}, "Option")
+    total = add_(R.time_ns(*[v.t for v in t]), norm.t)
+    carry = ediv(total, R.NS_DAY)
+    if io.kind != "sym":
+        # native end-to-end form of the same claim through the public API (PlainDateTime::add with the time part
+        # given in nanoseconds): result = AddISODate(date, y, mo, w, d + carry) at time (time + norm) mod 24 h
+        # (only mixed-sign-free inputs are a valid Duration; others are skipped natively)
+        vals = [yrs.t, mos.t, wks.t, dys.t, norm.t]
+        if any(v > 0 for v in vals) and any(v < 0 for v in vals):
+            return
+        r = io.call(None, [], native=("plain_date_time_add", ("result", ("agg", [("agg", ["i32", "u8", "u8"]), ("agg", ["u8", "u8", "u8", "u16", "u16", "u16"])])),
+                                      [y, m, d] + t + [yrs, mos, wks, dys, norm, symex.Int(overflow, "u8")]))
+        mi = add_(add_(mul(y.t, 12), sub(m.t, 1)), add_(mul(yrs.t, 12), mos.t))
+        Y1, M1 = ediv(mi, 12), add_(emod(mi, 12), 1)
+        dm = R.dim(Y1, M1)
+        if overflow == 1 and d.t > dm:
+            io.prove("C05.dt_add.reject_errors_on_clamped_day", r.d == 1)
+            return
+        D1 = min(d.t, dm)
+        target = R.epoch_days(Y1, M1, D1) + 7 * wks.t + dys.t + carry
+        if r.d == 0:
+            rd, rt = r.v[0][0].f
+            Y, M, D = (f.t for f in rd.f)
+            io.prove("C05.dt_add.date_part_is_add_iso_date_of_receiver_date_and_days_plus_carry",
+                     R.valid_date(Y, M, D) and R.epoch_days(Y, M, D) == target)
+            io.prove("C05.dt_add.time_part_is_sum_mod_day", R.time_ns(*[v.t for v in rt.f]) == emod(total, R.NS_DAY))
+        return
+    add = io.spy(("IsoDate", None, "add_date_duration"))
+    dt = symex.Agg([symex.Agg([y, m, d]), symex.Agg(t)])
+    cal = symex.Opaque("calendar:iso")
+    r = io.call(("IsoDateTime", None, "add_date_duration"),
+                [io.ref(dt), cal, io.ref(date_duration(yrs, mos, wks, dys)), symex.Agg([norm]), ov_opt], native=None)
+    io.witness("C05.dt_add.reach")
+    io.witness("C05.dt_add.crosses_midnight_with_months", and_(ne(carry, 0), ne(mos.t, 0)))
+    # AddDate reaches AddISODate on several enumerated paths (with / without calendar units, short-circuit tests);
+    # the claim is stated for every one of them under its own path condition
+    io.prove("C05.dt_add.date_added_through_add_iso_date", len(add) >= 1)
+    def num(v):
+        while isinstance(v, symex.Agg):
+            v = v.f[0]
+        return v.t
+    for i, ((recv, dur, ovf), ret, pc) in enumerate(add):
+        here = and_(*pc)
+        claim = and_(eq(recv.f[0].t, y.t), eq(recv.f[1].t, m.t), eq(recv.f[2].t, d.t),
+                     eq(num(dur.f[0]), yrs.t), eq(num(dur.f[1]), mos.t), eq(num(dur.f[2]), wks.t),
+                     eq(num(dur.f[3]), add_(dys.t, carry)), eq(ovf.d, overflow))
+        # asked first in the region where the order of operations is observable (month arithmetic from a month-end
+        # day with a midnight carry), so that a counterexample replays end-to-end; then in general
+        region = and_(ne(mos.t, 0), ge(d.t, 29), ne(carry, 0), eq(yrs.t, 0), eq(wks.t, 0), eq(dys.t, 0),
+                      le(-3, mos.t), le(mos.t, 3), le(-R.NS_DAY, norm.t), le(norm.t, R.NS_DAY))
+        io.prove("C05.dt_add.date_part_is_add_iso_date_of_receiver_date_and_days_plus_carry[site %d, month-end carry]" % i,
+                 claim, hyp=and_(here, region))
+        io.prove("C05.dt_add.date_part_is_add_iso_date_of_receiver_date_and_days_plus_carry[site %d]" % i, claim, hyp=here)
+    if 0 in r.v:
+        rd, rt = r.v[0][0].f
+        io.prove("C05.dt_add.time_part_is_sum_mod_day",
+                 eq(R.time_ns(*[v.t for v in rt.f]), emod(total, R.NS_DAY)), hyp=eq(r.d, 0))
+    io.obligations("C05.dt_add")
+
+
 def jobs(tier, seed):
     G = {"generics": {"T": "i128"}}
     out = [
         ("time_balance[|field|<=2^53]", time_balance, {"lim": 1 << 53}, None),
         ("time_add", time_add, {}, None),
         ("epoch_nanos_round_trip", epoch_nanos_round_trip, {}, None),
+        ("datetime_add[overflow=0]", datetime_add, {"overflow": 0}, None),
+        ("datetime_add[overflow=1]", datetime_add, {"overflow": 1}, None),
     ]
     pairs = time_pairs()
     if tier == "quick":
